@@ -646,6 +646,7 @@ def run(ctx):
     xbad2 = [i for i, v in zip(idx2, ce2) if v != emodel[i]]
     if xbad or xbad2:
         raise core.CheckBroken("extracted runner and vm_compute disagree on %r" % ((pin[xbad[0]] if xbad else ein[xbad2[0]]),))
+    specv = order_and_shrink(ctx, specv)
     dist.update({"eval_by_kind_and_result": edist, "shell_paths": sh_stats,
                  "parse_cases": len(pcases), "eval_cases": len(ecases)})
     return {
@@ -870,6 +871,86 @@ def shell_paths(ctx, ecases, emodel, mism, specv):
     return stats
 
 
+def shrink_eval(ctx, v, rounds=14):
+    """delta-debugging of an evaluator violation over the expression text and the environment; a candidate
+    is kept when the code still disagrees with the oracle (same known-status) and with bash"""
+    cur = (v["input"]["nounset"], v["input"]["expr"], dict(v["input"]["env"]), "shrunk")
+    known = v.get("known")
+    for _ in range(rounds):
+        cands = []
+        s, env = cur[1], cur[2]
+        for k in list(env):
+            e2 = dict(env)
+            del e2[k]
+            cands.append((cur[0], s, e2, "shrunk"))
+        for n in (max(1, len(s) // 2), max(1, len(s) // 4), 3, 2, 1):
+            for i in range(0, len(s), max(1, n // 2) if n > 2 else 1):
+                if s[:i] + s[i + n:] != s:
+                    cands.append((cur[0], s[:i] + s[i + n:], env, "shrunk"))
+        for k, val in env.items():
+            for repl in ("1", "0", "2"):
+                if val != repl:
+                    e2 = dict(env)
+                    e2[k] = repl
+                    cands.append((cur[0], s, e2, "shrunk"))
+        seen, uniq = set(), []
+        for c in cands:
+            key = (c[1], tuple(sorted(c[2].items())))
+            if key not in seen and "[" not in c[1]:
+                seen.add(key)
+                uniq.append(c)
+        uniq = uniq[:400]
+        if not uniq:
+            break
+        code = ctx.impl("arith_eval", [enc_eval(c) for c in uniq])
+        good = []
+        for c, cl in zip(uniq, code):
+            if cl.startswith(("PANIC", "DIED", "TIMEOUT")):
+                if "crashed" in v["why"]:
+                    good.append((c, [cl], "evaluation crashed: %s" % cl[:300]))
+                continue
+            if "crashed" in v["why"]:
+                continue
+            r = compare_spec(c, core.dec_line(cl))
+            if r and r[1] == known and not r[0].startswith("ERRCLASS"):
+                good.append((c, core.dec_line(cl), r[0]))
+        good.sort(key=lambda g: len(g[0][1]) + sum(len(k) + len(x) for k, x in g[0][2].items()))
+        picked = None
+        for c, cf, why in good[:6]:
+            if "crashed" in why or not same_as_bash(cf, bash_fields([c])[0]):
+                picked = (c, cf, why)
+                break
+        if picked is None:
+            break
+        size = lambda c: len(c[1]) + sum(len(k) + len(x) for k, x in c[2].items())
+        if size(picked[0]) >= size(cur):
+            break
+        cur = picked[0]
+        v = dict(v)
+        v["input"] = {"expr": cur[1], "env": cur[2], "nounset": cur[0]}
+        v["why"], v["code"] = picked[2], picked[1]
+        v["shrunk"] = True
+    return v
+
+
+def order_and_shrink(ctx, specv):
+    def size(v):
+        i = v["input"]
+        return len(i.get("expr", i.get("parse", i.get("script", "")))) + sum(len(x) for x in i.get("env", {}).values())
+    unknown = sorted([v for v in specv if "known" not in v], key=size)
+    known = sorted([v for v in specv if "known" in v], key=size)
+    out = []
+    for v in unknown[:3]:
+        if "expr" in v["input"] and "code" in v:
+            try:
+                v = shrink_eval(ctx, v)
+            except Exception as ex:       # shrinking is best effort
+                v = dict(v)
+                v["shrink_error"] = repr(ex)[:200]
+        out.append(v)
+    return sorted(out, key=size) + unknown[3:] + known
+
+
 def search(ctx, res):
     """extended search after a broken tie: many more evaluator cases, code vs oracle and vs bash"""
     rng = random.Random(ctx.seed + 7)
@@ -901,7 +982,7 @@ def search(ctx, res):
             specv.append({"input": {"expr": c[1], "env": c[2], "nounset": c[0]}, "why": r[0], "code": core.dec_line(cl)})
     notes = []
     specv, st = confirm_with_bash(ctx, specv, notes)
-    specv.sort(key=lambda v: len(v["input"].get("expr", "")) + sum(len(x) for x in v["input"].get("env", {}).values()))
+    specv = order_and_shrink(ctx, specv)
     return {"evaluations": len(cases), "spec_violations": specv[:5], "spec_vs_bash": st}
 
 
